@@ -172,6 +172,7 @@ func cmdReflectRecord(args []string) {
 	w := bufio.NewWriterSize(of, 1<<20)
 	defer w.Flush()
 	g := val.New(*seed)
+	g.LongLists = 0
 	g.ZeroBias = 20
 	for h := 0; h < *n; h++ {
 		p := newPulsar(mt)
